@@ -59,6 +59,9 @@ Definition rr_gen1 (s : mq) (fl rest : list Z) := gen_RR_run_from_1 (rr_fields s
 Definition rr_gen2 (s : mq) (fl rest : list Z) := gen_RR_run_from_2 (rr_fields s) rest (mtotal s) fl (fun _ => true).
 Definition rr_gen3 (s : mq) (fl : list Z) := gen_RR_run_from_3 (rr_fields s) (mtotal s) fl (fun _ => true).
 
+Lemma negb_leb0 (x : Z) : negb (Z.leb x 0) = Z.ltb 0 x.
+Proof. destruct (Z.leb_spec x 0), (Z.ltb_spec 0 x); try reflexivity; lia. Qed.
+
 (* ---- the generated fixes, by induction over the list -------------------------------------------------------------- *)
 Lemma gen_rr_top_spec : forall (st : rr_run_st) (tot : Z) (l : list Z),
   gen_RR_run_from_0 st tot l (fun _ => true) =
@@ -67,7 +70,8 @@ Proof.
   intros st tot l. unfold gen_RR_run_from_0, rr_top.
   induction l as [|f t IH]; cbn [rr_find rr_get].
   - destruct (Z.eqb tot 0); reflexivity.
-  - destruct (Z.ltb 0 (rr_queue_count st f)); [reflexivity|exact IH].
+  - rewrite ?(negb_leb0 (rr_queue_count st f)).
+    destruct (Z.ltb 0 (rr_queue_count st f)); [reflexivity|exact IH].
 Qed.
 
 Lemma gen_rr_from3_spec : forall (st : rr_run_st) (tot : Z) (l : list Z),
@@ -77,7 +81,8 @@ Proof.
   intros st tot l. unfold gen_RR_run_from_3, rr_top.
   induction l as [|f t IH]; cbn [rr_find rr_get].
   - destruct (Z.eqb tot 0); reflexivity.
-  - destruct (Z.ltb 0 (rr_queue_count st f)); [reflexivity|exact IH].
+  - rewrite ?(negb_leb0 (rr_queue_count st f)).
+    destruct (Z.ltb 0 (rr_queue_count st f)); [reflexivity|exact IH].
 Qed.
 
 Lemma gen_rr_from2_spec : forall (st : rr_run_st) (tot : Z) (flows l : list Z),
@@ -88,7 +93,8 @@ Proof.
   unfold gen_RR_run_from_2, rr_from.
   induction l as [|f t IH]; cbn [rr_find rr_get].
   - destruct (Z.eqb tot 0); [reflexivity|]. rewrite T. reflexivity.
-  - destruct (Z.ltb 0 (rr_queue_count st f)); [reflexivity|exact IH].
+  - rewrite ?(negb_leb0 (rr_queue_count st f)).
+    destruct (Z.ltb 0 (rr_queue_count st f)); [reflexivity|exact IH].
 Qed.
 
 (* ---- the automaton's scan, by induction over the list ------------------------------------------------------------- *)
